@@ -417,6 +417,22 @@ func init() {
 			if pk, err := did.ToPubKey(ks[i].id.String()); err != nil || !pk.Equals(ks[i].pub) {
 				rep.violation(map[string]any{"key": ks[i].id.String()}, "the key", fmt.Sprint(err), "ToPubKey(String()) does not give the key back")
 			}
+			// a DID URL (path, query, fragment), surrounding white space or another letter case is not the identifier:
+			// whatever entry point extracts a key from it would give this principal a second identifier
+			base := ks[i].id.String()
+			other := ks[(i+1)%len(ks)].id.String()
+			for _, text := range []string{base + "#" + base[8:], base + "#" + other[8:], base + "?x=1", base + "/path", base + "#", base + " ", " " + base, base + "\n",
+				"DID:KEY:" + base[8:], "did:key:" + base[8:] + "=", base + ";v=1"} {
+				rep.Evaluations++
+				if _, err := did.Parse(text); err == nil {
+					if d, _ := did.Parse(text); d.String() != text {
+						rep.violation(map[string]any{"text": text}, "rejected", "parsed as "+d.String(), "did.Parse accepts a string that is not the canonical identifier it stands for")
+					}
+				}
+				if pk, err := did.ToPubKey(text); err == nil && pk != nil {
+					rep.violation(map[string]any{"text": text}, "rejected", "a key", "did.ToPubKey extracts a key from a string that is not a canonical did:key identifier (one principal, several identifiers)")
+				}
+			}
 		}
 		// a secp256k1 key held as a generic ECDSA key must get the same DID (16 keys: both parities of X and Y occur)
 		for n := 1; n <= 16; n++ {
